@@ -163,14 +163,15 @@ def install(sched, fail_items, log):
             sched.turn(sched.me())
             return real_queue.Queue.empty(self)
 
-        def get(self, *a, **kw):
+        def get(self, block=True, timeout=None):
             k = sched.me()
             sched.turn(k)
-            # a get() on an empty queue would block for ever: report instead (the model's PBlocked)
+            # a blocking get() on an empty queue would block for ever: report instead (the model's PBlocked); a
+            # non-blocking one (get_nowait, block=False, a timeout) raises queue.Empty as the real queue does
             try:
                 data = real_queue.Queue.get(self, block=False)
             except real_queue.Empty:
-                log.append(["blocked_in_get", k])
+                log.append(["blocked_in_get" if (block and timeout is None) else "nonblocking_get_empty", k])
                 raise
             if k is not None:
                 for lk in locks:
@@ -209,14 +210,26 @@ def install(sched, fail_items, log):
         sched.turn(k)                                     # the call returns: the item is finished
         log.append(["finished", k, item])
 
-    N.threading = types.SimpleNamespace(Lock=make_lock, Thread=Thread)
-    N.Queue = Queue
-    N.ndl_parallel = types.SimpleNamespace(learn_inplace_binary_to_binary=learn)
+    # replace whichever of these names the module uses (`import threading` or `from threading import Thread, Lock`,
+    # `from queue import Queue` or `import queue`): the import style is not behaviour
+    saved = {}
+
+    def patch(name, value):
+        if hasattr(N, name):
+            saved[name] = getattr(N, name)
+            setattr(N, name, value)
+    patch("threading", types.SimpleNamespace(Lock=make_lock, Thread=Thread))
+    patch("Thread", Thread)
+    patch("Lock", make_lock)
+    patch("Queue", Queue)
+    patch("queue", types.SimpleNamespace(Queue=Queue, Empty=real_queue.Empty, Full=real_queue.Full))
+    patch("ndl_parallel", types.SimpleNamespace(learn_inplace_binary_to_binary=learn))
+    if hasattr(N, "learn_inplace_binary_to_binary"):
+        patch("learn_inplace_binary_to_binary", learn)
 
     def uninstall():
-        N.threading = real_threading
-        N.Queue = real_queue.Queue
-        N.ndl_parallel = real_parallel
+        for name, value in saved.items():
+            setattr(N, name, value)
     return uninstall, items
 
 
